@@ -1,7 +1,7 @@
 """C03 — no error is masked: a defect anywhere in the compilation set makes check fail."""
 import time, json, itertools, re
 import z3
-from framework import kernel, Finding, fn_paths, Part, par_map, merge_part, replay_factory
+from framework import kernel, Finding, fn_paths, Part, par_map, merge_part, replay_factory, REPLAYS
 from mirsym.machine import *
 from mirsym.mirread import Unsupported
 from mirsym import models
@@ -42,9 +42,8 @@ def project_machine(ctx, N, events):
         st['parse_ok'] = [M.fresh_bool('parse_ok') for _ in range(N)]
         st['an_ok'] = M.fresh_bool('analyze_ok')
         st['content'] = [M.fresh_bv('content%d' % i, 32) for i in range(N)]
-        sfields = [f for f, _ in P.structs.get('Source', [])]
-        if sfields[:3] != ['file_id', 'data', 'library']: raise Unsupported('unexpected layout of Source: %r' % sfields)
-        srcs = VecV([Agg('()', [Agg('FileId', [Str('f%d' % i)]), Agg('Source', [Agg('FileId', [Str('f%d' % i)]), Str(str(i)), none()])]) for i in range(N)])
+        from . import lspcommon as LSP
+        srcs = VecV([Agg('()', [Agg('FileId', [Str('f%d' % i)]), LSP.new_source(M, P, 'f%d' % i, str(i))]) for i in range(N)])
         proj = Cell(Agg('FileBackedProject', [srcs]))
         return M.call_fn(key, [Ref(proj)])
     return M, entry, st
@@ -472,4 +471,62 @@ def k7(ctx, kr):
     from . import C13 as K13
     K13._k6_run(ctx, kr, 'C03/K7')
 
-KERNELS = [k1, k3, k4, k5, k6, k2, k7]
+# ---------------------------------------------------------------------------------------------- K8 a file whose text is replaced is parsed again
+@kernel('K8 project.replaced_text_is_reparsed')
+def k8(ctx, kr):
+    """the language server keeps one project and replaces the text of a file (FileBackedProject::change_text_document): after text 0 was checked and text 1 took its place,
+    checking reports what text 1 deserves - in particular a text 1 that does not parse fails the check although text 0 did parse (no cached library survives its text)"""
+    events = []
+    M, entry0, st = project_machine(ctx, 2, events)
+    P = ctx.program()
+    sem = P.impl_all.get(('FileBackedProject', 'Project', 'semantic')); chg = P.impl_all.get(('FileBackedProject', 'Project', 'change_text_document'))
+    if not sem or not chg: kr.inconc('FileBackedProject::{semantic, change_text_document} not found'); return
+    def entry(M):
+        events.clear()
+        st['parse_ok'] = [M.fresh_bool('parse_ok_text%d' % i) for i in range(2)]; st['an_ok'] = M.fresh_bool('analyze_ok')
+        st['content'] = [M.fresh_bv('content%d' % i, 32) for i in range(2)]
+        proj = Cell(Agg('FileBackedProject', [VecV([])])); fid = Ref(Cell(Agg('FileId', [Str('f0')])))
+        M.call_fn(chg[0], [Ref(proj), fid, Str('0')]); st['first'] = M.call_fn(sem[0], [Ref(proj)])
+        M.call_fn(chg[0], [Ref(proj), fid, Str('1')]); return M.call_fn(sem[0], [Ref(proj)])
+    def on_path(M, pr):
+        kr.paths += 1
+        if pr.inconclusive: kr.inconc(pr.inconclusive); return
+        kr.nontrivial += 1
+        s = z3.Solver(); s.add(*pr.pc); s.check(); m = s.model(); kr.queries += 1
+        pok = [z3.is_true(m.eval(b, True)) for b in st['parse_ok']]; aok = z3.is_true(m.eval(st['an_ok'], True))
+        wit = {'first_text_parses': pok[0], 'second_text_parses': pok[1], 'analysis_ok': aok}
+        rep = ('project_replace', (pok[0], pok[1]))
+        if pr.panic: kr.findings.append(Finding('C03/K8/panic', 'checking after a replaced text panics: ' + pr.panic.msg[:60], wit, replay=REPLAYS[rep[0]](*rep[1]))); return
+        codes = _codes(M, pr.result); is_err = pr.result.disc == 1
+        role = None
+        if not pok[1] and (not is_err or 'parse1' not in codes): role, what = 'C03/K8/parse-error-of-the-new-text-lost', 'the new text of the file does not parse, but the check %s' % ('succeeds' if not is_err else 'reports only %s' % codes)
+        elif pok[1] and 'parse0' in codes: role, what = 'C03/K8/diagnostic-of-the-old-text-kept', 'the new text parses, but the check still reports the parse error of the text it replaced'
+        elif pok[1] and aok and is_err: role, what = 'C03/K8/spurious-error', 'the new text parses and analyses, but the check fails with %s' % codes
+        if role and not any(f.role == role for f in kr.findings): kr.findings.append(Finding(role, what + ' (first text %s)' % ('parsed' if pok[0] else 'did not parse'), wit, replay=REPLAYS[rep[0]](*rep[1])))
+        elif not role and len(kr.validate) < 2: kr.validate.append(rep)
+        if len(kr.samples) < 4: kr.samples.append({'outcomes': wit, 'second_check': 'Err%s' % codes if is_err else 'Ok'})
+    M.explore(entry, on_path)
+    kr.queries += M.stats['smt']
+    kr.functions = fn_paths(P, M.encoded); kr.models = sorted(M.models_used)
+    kr.stubs = ['ironplc_parser::parse_program -> Ok / Err as an uninterpreted function of the text', 'ironplc_analyzer::stages::analyze -> Err(P0030) on an empty set, otherwise arbitrary Ok / Err']
+    kr.bounds = 'one file, two successive texts with symbolic parse outcomes, a check after each: FileBackedProject::change_text_document and ::semantic with the real Source'
+    kr.exhaustive = True
+
+@replay_factory('project_replace')
+def _replay_project_replace(first_ok, second_ok):
+    def rp(ctx):
+        import lspclient
+        good = GOOD % 0; bad = BAD_SYNTAX % 0
+        s = lspclient.LspSession(ctx.ironplcc_path()); uri = 'file:///tmp/verif_c03_replace.st'
+        try:
+            s.initialize()
+            s.did_open(uri, good if first_ok else bad, 1); s.diagnostics_for(uri, version=1, timeout=10)
+            s.did_change(uri, [good if second_ok else bad], 2); d = s.diagnostics_for(uri, version=2, timeout=10)
+        finally:
+            s.close()
+        if d is None: return True, {'note': 'no diagnostics published for the replaced text'}
+        n = len(d['params']['diagnostics'])
+        return (n == 0) != second_ok, {'first_text_parses': first_ok, 'second_text_parses': second_ok, 'diagnostics_after_the_replacement': n}
+    return rp
+
+KERNELS = [k1, k8, k3, k4, k5, k6, k2, k7]
